@@ -30,12 +30,12 @@ type beh struct {
 }
 
 type view struct {
-	Name          string
-	Offset        int64
-	CSize, USize  uint64
-	CRC           uint32
-	Method        uint16
-	Content       []byte
+	Name         string
+	Offset       int64
+	CSize, USize uint64
+	CRC          uint32
+	Method       uint16
+	Content      []byte
 }
 
 // standard reader's view (Go archive/zip)
@@ -540,4 +540,57 @@ func (s *segReader) Read(p []byte) (int, error) {
 		p = p[:s.n]
 	}
 	return s.r.Read(p)
+}
+
+// Counts: vh zip-count — archives with 65534, 65535 and 65536 members (written by Go's archive/zip): the member count at
+// which the classic end record's 16-bit field is exhausted and the ZIP64 records become mandatory. relic must read each
+// like the standard reader (random access and stream) and re-serialise the unmodified directory to the original bytes.
+func Counts() {
+	r := res.New()
+	dir, err := os.MkdirTemp(os.Getenv("VERIF_TMP"), "vh-zipc-")
+	if err != nil {
+		panic(err)
+	}
+	defer os.RemoveAll(dir)
+	c := &ctx{r: r, dir: dir}
+	os.Unsetenv("VERIF_ZIPDUMP")
+	for _, n := range []int{65534, 65535, 65536} {
+		var buf bytes.Buffer
+		zw := zip.NewWriter(&buf)
+		for i := 0; i < n; i++ {
+			w, err := zw.CreateHeader(&zip.FileHeader{Name: fmt.Sprintf("m%05d", i), Method: zip.Store})
+			if err != nil {
+				panic(err)
+			}
+			if i%4096 == 0 {
+				w.Write([]byte("x"))
+			}
+		}
+		if err := zw.Close(); err != nil {
+			panic(err)
+		}
+		r.Eval(true)
+		b := &beh{}
+		if !c.checkArchive(b, buf.Bytes(), nil, fmt.Sprintf("count-%d", n), true) {
+			continue
+		}
+		// relic's own writer: the member data followed by the directory it writes when it is not forced to ZIP64
+		// (what the archive rewrites of the signers end with); relic and the standard reader must read that back
+		data := buf.Bytes()
+		d, err := zipslicer.Read(bytes.NewReader(data), int64(len(data)))
+		if err != nil {
+			c.fail(b, "read-error", fmt.Sprintf("count-%d", n), "zipslicer.Read: %v", err)
+			continue
+		}
+		out := bytes.NewBuffer(append([]byte(nil), data[:d.DirLoc]...))
+		if err := protect(func() error { return d.WriteDirectory(out, out, false) }); err != nil {
+			c.fail(b, "write-error", fmt.Sprintf("count-%d", n), "WriteDirectory: %v", err)
+			continue
+		}
+		if c.checkArchive(b, out.Bytes(), nil, fmt.Sprintf("count-%d-rewritten", n), true) {
+			r.Count("count_archives_ok", 1)
+		}
+	}
+	os.RemoveAll(dir)
+	r.Emit()
 }
